@@ -246,3 +246,160 @@ Proof.
   rewrite (check_sound n cs H h Hin l1 H1), (check_sound n cs H h Hin l2 H2). reflexivity.
 Qed.
 Print Assumptions check_convergence.
+
+(* ====================================================================== *)
+(* non-vacuity                                                             *)
+(* ====================================================================== *)
+
+Example gen_nonempty : (length (gen 3 [1%N;2%N] [] []) > 0)%nat.
+Proof. vm_compute. lia. Qed.
+
+Example gen_3x2_count : length (gen 3 [1;2] [] []) = 88%nat.
+Proof. vm_compute. reflexivity. Qed.
+
+(* number of complete admissible integration orders of a history (what all_orders_ok walks through) *)
+Fixpoint count_orders (fuel : nat) (have : list id) (rem : list op) : N :=
+  match fuel with
+  | O => 1
+  | S f =>
+    match rem with
+    | [] => 1
+    | _ => fold_left (fun a k =>
+             match nth_error rem k with
+             | Some x => if dep_ok have x then a + count_orders f (oid x :: have) (remove_nth k rem) else a
+             | None => a
+             end) (seq 0 (length rem)) 0
+    end
+  end.
+Definition total_orders (n : nat) (clients : list N) : N :=
+  fold_left (fun a h => a + count_orders (length h) [] h) (gen n clients [] []) 0.
+
+Example total_orders_3x2 : total_orders 3 [1;2] = 164.
+Proof. vm_compute. reflexivity. Qed.
+
+(* a concrete generated history with genuinely concurrent inserts: client 1 types (1,0);
+   then client 1 appends (1,1) after it while client 2, having seen only (1,0), also appends (2,0)
+   after it.  (1,1) and (2,0) have the same origin (1,0), the same (absent) right origin, and
+   neither depends on the other. *)
+Definition h_conc : list op :=
+  [ seqop (mkid 1 0) None None;
+    seqop (mkid 1 1) (Some (mkid 1 0)) None;
+    seqop (mkid 2 0) (Some (mkid 1 0)) None ].
+
+Example h_conc_generated : In h_conc (gen 3 [1;2] [] []).
+Proof. apply (nth_error_In _ 14%nat). vm_compute. reflexivity. Qed.
+
+Example h_conc_concurrent :
+  exists a b, In a h_conc /\ In b h_conc /\
+              cl (oid a) <> cl (oid b) /\
+              oorigin a = oorigin b /\ oorigin a = Some (mkid 1 0) /\
+              dep_ok [mkid 1 0] a = true /\ dep_ok [mkid 1 0] b = true.
+Proof.
+  exists (seqop (mkid 1 1) (Some (mkid 1 0)) None), (seqop (mkid 2 0) (Some (mkid 1 0)) None).
+  repeat split; try reflexivity; simpl; auto. discriminate.
+Qed.
+
+(* two different admissible orders of h_conc, both runs *)
+Example h_conc_run_123 :
+  run [] h_conc []
+      (integ (integ (integ [] (seqop (mkid 1 0) None None))
+                    (seqop (mkid 1 1) (Some (mkid 1 0)) None))
+             (seqop (mkid 2 0) (Some (mkid 1 0)) None)).
+Proof.
+  eapply (run_step _ _ _ 0%nat); [reflexivity|reflexivity|].
+  eapply (run_step _ _ _ 0%nat); [reflexivity|reflexivity|].
+  eapply (run_step _ _ _ 0%nat); [reflexivity|reflexivity|].
+  apply run_done.
+Qed.
+
+Example h_conc_run_132 :
+  run [] h_conc []
+      (integ (integ (integ [] (seqop (mkid 1 0) None None))
+                    (seqop (mkid 2 0) (Some (mkid 1 0)) None))
+             (seqop (mkid 1 1) (Some (mkid 1 0)) None)).
+Proof.
+  eapply (run_step _ _ _ 0%nat); [reflexivity|reflexivity|].
+  eapply (run_step _ _ _ 1%nat); [reflexivity|reflexivity|].
+  eapply (run_step _ _ _ 0%nat); [reflexivity|reflexivity|].
+  apply run_done.
+Qed.
+
+Example h_conc_result :
+  map did (render h_conc) = [mkid 1 0; mkid 1 1; mkid 2 0].
+Proof. vm_compute. reflexivity. Qed.
+
+(* an op whose origin is missing cannot be integrated first: run really is dependency-constrained *)
+Example h_conc_not_ready : dep_ok [] (seqop (mkid 2 0) (Some (mkid 1 0)) None) = false.
+Proof. reflexivity. Qed.
+
+(* ====================================================================== *)
+(* 6. the finite theorems (kernel VM) and their corollaries                *)
+(* ====================================================================== *)
+
+Theorem yata_finite_4x3 : check 4 [1;2;3] = true.
+Proof. vm_cast_no_check (eq_refl true). Time Qed.
+Print Assumptions yata_finite_4x3.
+
+Theorem yata_convergence_4x3 : forall h, In h (gen 4 [1;2;3] [] []) ->
+  forall l1 l2, run [] h [] l1 -> run [] h [] l2 -> map did l1 = map did l2.
+Proof. exact (check_convergence 4 [1;2;3] yata_finite_4x3). Qed.
+Print Assumptions yata_convergence_4x3.
+
+(* extra: four pairwise concurrent clients *)
+Theorem yata_finite_4x4 : check 4 [1;2;3;4] = true.
+Proof. vm_cast_no_check (eq_refl true). Time Qed.
+Print Assumptions yata_finite_4x4.
+
+Theorem yata_convergence_4x4 : forall h, In h (gen 4 [1;2;3;4] [] []) ->
+  forall l1 l2, run [] h [] l1 -> run [] h [] l2 -> map did l1 = map did l2.
+Proof. exact (check_convergence 4 [1;2;3;4] yata_finite_4x4). Qed.
+Print Assumptions yata_convergence_4x4.
+
+Theorem yata_finite_5x2 : check 5 [1;2] = true.
+Proof. vm_cast_no_check (eq_refl true). Time Qed.
+Print Assumptions yata_finite_5x2.
+
+Theorem yata_convergence_5x2 : forall h, In h (gen 5 [1;2] [] []) ->
+  forall l1 l2, run [] h [] l1 -> run [] h [] l2 -> map did l1 = map did l2.
+Proof. exact (check_convergence 5 [1;2] yata_finite_5x2). Qed.
+Print Assumptions yata_convergence_5x2.
+
+(* the h_conc example through the general theorem (h_conc padded is not needed: 3x2 is cheap) *)
+Theorem yata_finite_3x2 : check 3 [1;2] = true.
+Proof. vm_cast_no_check (eq_refl true). Time Qed.
+Print Assumptions yata_finite_3x2.
+
+Example h_conc_converges : forall l1 l2,
+  run [] h_conc [] l1 -> run [] h_conc [] l2 -> map did l1 = map did l2.
+Proof. exact (check_convergence 3 [1;2] yata_finite_3x2 h_conc h_conc_generated). Qed.
+
+(* ---------- the two expensive ones, last ---------- *)
+
+Theorem yata_finite_5x3 : check 5 [1;2;3] = true.
+Proof. vm_cast_no_check (eq_refl true). Time Qed.
+Print Assumptions yata_finite_5x3.
+
+Theorem yata_convergence_5x3 : forall h, In h (gen 5 [1;2;3] [] []) ->
+  forall l1 l2, run [] h [] l1 -> run [] h [] l2 -> map did l1 = map did l2.
+Proof. exact (check_convergence 5 [1;2;3] yata_finite_5x3). Qed.
+Print Assumptions yata_convergence_5x3.
+
+Theorem yata_finite_6x2 : check 6 [1;2] = true.
+Proof. vm_cast_no_check (eq_refl true). Time Qed.
+Print Assumptions yata_finite_6x2.
+
+Theorem yata_convergence_6x2 : forall h, In h (gen 6 [1;2] [] []) ->
+  forall l1 l2, run [] h [] l1 -> run [] h [] l2 -> map did l1 = map did l2.
+Proof. exact (check_convergence 6 [1;2] yata_finite_6x2). Qed.
+Print Assumptions yata_convergence_6x2.
+
+(* Coverage (measured with vm_compute, Coq 8.16.1):
+     size   histories = |gen n cs [] []|   admissible orders explored   check time (Qed)
+     3x2            88                              164                    < 0.01 s
+     4x3         9 048                           38 451                    ~ 0.5 s
+     4x4        35 520                                -                    ~ 2 s
+     5x2        20 884                          168 192                    ~ 2.5 s
+     5x3       328 296                        3 429 264                    ~ 48 s
+     6x2       483 820                       10 214 676                    ~ 160 s
+   (Eval vm_compute in length (gen 5 [1;2;3] [] []) overflows the stack when the nat result is read
+    back; the counts above were computed as N with fold_left (fun a _ => a + 1).) *)
